@@ -63,6 +63,7 @@ def catalogue(cfg):
             f = dict(fault)
             f["tie"] = cfg.randrange(64)
             f["partial"] = cfg.randrange(1 << 16)
+            f["exc"] = cfg.choice(["message", "noargs", "subclass"])
             steps.append({"backend": backend, "via": via, "fault": f,
                           "default": cfg.choice(["none", "sim-api"])})
     return steps
@@ -75,7 +76,9 @@ def gen_run(seed, tier, i):
     s_fault = rng.stream(NAME, tier, seed, i, "faults")
     s_ops = rng.stream(NAME, tier, seed, i, "ops")
     if i < plan["catalogue"]:
-        if i % 4 == 3:
+        if i % 16 == 5:
+            st = structures.gen_large(s_struct, 30, 80)
+        elif i % 4 == 3:
             st = structures.gen_many(s_struct, 10, 14)
         elif i % 8 == 2:
             st = structures.gen_broom(s_struct)
@@ -100,6 +103,8 @@ def gen_run(seed, tier, i):
     reuse_structure = s_cfg.random() < 0.3
     def fresh_structure():
         x = s_struct.random()
+        if x < 0.02:
+            return structures.gen_large(s_struct, 30, 80)
         if x < 0.12:
             return structures.gen_many(s_struct, 10, 14)
         if x < 0.20:
@@ -127,7 +132,8 @@ def gen_run(seed, tier, i):
         faulty = s_fault.random() < fault_rate and (stop_after is None or k < stop_after)
         kinds = KINDS_OF[backend]
         kind = s_fault.choice(kinds[1:]) if (faulty and len(kinds) > 1) else "ok"
-        fault = {"kind": kind, "tie": s_fault.randrange(64), "partial": s_fault.randrange(1 << 16)}
+        fault = {"kind": kind, "tie": s_fault.randrange(64), "partial": s_fault.randrange(1 << 16),
+                 "exc": s_fault.choice(["message", "noargs", "subclass"])}
         if kind.startswith("status_") or kind == "raise_after_optimal":
             fault["assign"] = s_fault.choice(API_ASSIGN)
         step = {"triples": st["triples"], "op": op, "via": via, "backend": backend,
